@@ -134,7 +134,7 @@ def relation(e, p):
     return None
 
 
-FORMS_PLAIN = ["annot", "annot_const", "arg", "ret", "ret_stmt", "assign"]
+FORMS_PLAIN = ["annot", "annot_const", "arg", "ret", "ret_stmt", "assign", "assign_opt"]
 
 
 def binop_forms(e, p, rel):
@@ -142,7 +142,7 @@ def binop_forms(e, p, rel):
     forms = []
     if rel == "own_underlying":
         if e.numeric and p.numeric and e.kind != "variant":
-            forms += ["bin_pinned:+:ep", "bin_pinned:+:pe"]
+            forms += ["bin_pinned:+:ep", "bin_pinned:+:pe", "cassign"]
         # `&&` is not usable: its result is `bool` by definition, whichever operand type was chosen as the common type
         return forms
     if rel == "same_enum_variant":
@@ -175,6 +175,12 @@ def program(form, e, p, provided=None, evalue=None):
         body = "    g();\n    0\n"
     elif form == "assign":
         body = f"    {psetup}\n    {e.setup('m')}\n    m = {pv};\n    0\n"
+    elif form == "assign_opt":
+        # the same assignment one level down: optional of E := optional of P
+        body = f"    {psetup}\n    {e.setup('ev')}\n    o : ?{e.name} = ev;\n    d : ?{p.name} = {pv};\n    o = d;\n    0\n"
+    elif form == "cassign":
+        # compound assignment: the result is stored in a variable of type E, so P would have to be accepted as E
+        body = f"    {psetup}\n    {e.setup('m')}\n    m += {pv};\n    0\n"
     elif form.startswith("bin"):
         kind, op, order = form.split(":")
         lhs, rhs = ("e", pv) if order == "ep" else (pv, "e")
@@ -195,7 +201,8 @@ def names_both(c, e, p, literal=False):
         # a `return` reports the join of the returned types: the variant's enum, or `type` for two payload-less variants
         found += [f"`main::{p.enum}`", "`type`"]
     for line in c.diag_kinds():
-        if MISMATCH.search(line) and f"`{e.disp}`" in line and (literal or any(f in line for f in found)):
+        plain = line.replace("`?", "`")        # the assign_opt form reports the optionals of E and P
+        if MISMATCH.search(line) and f"`{e.disp}`" in plain and (literal or any(f in plain for f in found)):
             return line
     return None
 
